@@ -363,7 +363,7 @@ def generate():
                 % (expr(scale, "rate", "Q"), expr(scale, "rate", "R"), guard,
                    expr(rate_arg, v, "Q"), expr(rate_arg, v, "R"), sel, dt, tupd,
                    coq_bool(onehot), coq_bool(upd), coq_bool(jmp)))
-    except Unsupported as u:
+    except (Unsupported, ValueError, TypeError, IndexError, KeyError, AttributeError, AssertionError, RecursionError) as u:   # any surprise in the source = fail closed
         return HEAD + failed("ClockGen", str(u)) + FALLBACK
 
 
